@@ -11,6 +11,7 @@ import (
 	"slices"
 	"strings"
 	"sync"
+	"sync/atomic"
 	"testing/synctest"
 	"time"
 
@@ -61,6 +62,9 @@ type Opts struct {
 	MaxDelay int
 	// Wrap optionally builds the state under test from the proxy-wrapped inmem (e.g. remote loopback); default state.WrapCore(proxy).
 	Wrap func(px *gp.Proxy) state.State `json:"-"`
+	// ThirdPartyAtWatch: right before a single-resource watch is established (the helpers' wait step), every third time a third party
+	// strips the resource's finalizers and destroys it: the window "gone between the helper's mark and its watch" made deterministic
+	ThirdPartyAtWatch bool
 }
 
 // Outcome is everything a scenario observed.
@@ -73,11 +77,15 @@ type Outcome struct {
 	Stuck   []string            `json:"stuck,omitempty"` // non-blocking helpers that never returned
 	// Retries: store-level update attempts by helper calls beyond the commits they made (conflict retries observed).
 	Retries int `json:"retries"`
+	// ThirdPartyDestroys: resources removed by the third party right before a helper's watch was established
+	ThirdPartyDestroys int `json:"third_party_destroys_at_watch,omitempty"`
 }
 
 var errMutator = errors.New("verif: mutator refused")
 
 type runner struct {
+	ThirdPartyDestroys atomic.Int64
+
 	rng   *rand.Rand
 	st    state.State
 	px    *gp.Proxy
@@ -137,6 +145,41 @@ func Run(rng *rand.Rand, o Opts) *Outcome {
 
 	r := &runner{rng: rng, st: st, px: px, start: time.Now()}
 
+	if o.ThirdPartyAtWatch {
+		var hmu sync.Mutex
+
+		hrng := rand.New(rand.NewPCG(rng.Uint64(), 4711))
+		third := state.WrapCore(px)
+		tctx := gp.WithNoGate(gp.WithActor(root, "third-party-at-watch"))
+
+		px.HoldWatch = func(kind string, k gp.Key) {
+			hmu.Lock()
+			fire := kind == "single" && hrng.IntN(3) == 0
+			hmu.Unlock()
+
+			if !fire {
+				return
+			}
+
+			md := resource.NewMetadata(k.NS, k.Type, k.ID, resource.VersionUndefined)
+
+			cur, err := third.Get(tctx, md)
+			if err != nil {
+				return
+			}
+
+			if all := slices.Clone([]string(*cur.Metadata().Finalizers())); len(all) > 0 {
+				if err = third.RemoveFinalizer(tctx, md, all...); err != nil {
+					return
+				}
+			}
+
+			if third.Destroy(tctx, md, state.WithDestroyOwner(cur.Metadata().Owner())) == nil {
+				r.ThirdPartyDestroys.Add(1)
+			}
+		}
+	}
+
 	for i := 0; i < o.IDs; i++ {
 		r.ids = append(r.ids, fmt.Sprintf("r%d", i))
 	}
@@ -190,7 +233,7 @@ func Run(rng *rand.Rand, o Opts) *Outcome {
 		synctest.Wait()
 	}
 
-	out := &Outcome{Log: px.Log(), Watches: px.Watches(), OpsHash: hashOps(px.Ops()), Stuck: stuck, Final: map[string]*gp.Snap{}}
+	out := &Outcome{Log: px.Log(), Watches: px.Watches(), OpsHash: hashOps(px.Ops()), Stuck: stuck, Final: map[string]*gp.Snap{}, ThirdPartyDestroys: int(r.ThirdPartyDestroys.Load())}
 
 	for k, v := range px.ShadowAll() {
 		out.Final[k.ID] = v
